@@ -341,6 +341,37 @@ func robustResponses(r *simcore.Run, w *worlds) {
 }
 
 // robustRequests sends odd request lines, headers and bodies.
+// the rule served to odd requests: every part of the request view (body, query, captures, cookies, client addresses)
+// is pulled through CEL and through templates
+const robustRequestRule = `version: "1alpha4"
+name: sim
+rules:
+- id: r1
+  match:
+    routes:
+      - path: /svc/:id
+      - path: /svc/:id/**
+  forward_to:
+    host: upstream:8080
+  execute:
+    - authenticator: basic
+    - authenticator: generic
+    - authenticator: anon
+    - authorizer: cel_true
+      config:
+        expressions:
+          - expression: "Request.Body != 7 && Request.URL.Query().size() >= 0 && Request.Cookie('sess') != 'x' && Request.ClientIPAddresses.size() >= 0"
+    - finalizer: header
+      config:
+        headers:
+          X-User: "{{ .Subject.ID }}"
+          X-Body: "{{ .Request.Body | toJson | trunc 40 }}"
+          X-Query: "{{ .Request.URL.Query | toJson | trunc 40 }}"
+          X-Captures: "{{ .Request.URL.Captures | toJson | trunc 40 }}"
+          X-Ips: "{{ .Request.ClientIPAddresses | toJson | trunc 40 }}"
+          X-Sess: "{{ .Request.Cookie \"sess\" | trunc 10 }}"
+`
+
 func robustRequests(r *simcore.Run, w *worlds) {
 	s := r.Src
 	entry := simcore.Pick(s, []string{"decision", "proxy", "envoy"}, "entry")
@@ -348,7 +379,7 @@ func robustRequests(r *simcore.Run, w *worlds) {
 	if entry == "proxy" {
 		target = w.proxy
 	}
-	rs, err := world.ParseRuleSet("sim", "version: \"1alpha4\"\nname: sim\nrules:\n- id: r1\n  match:\n    routes:\n      - path: /svc/:id\n      - path: /svc/:id/**\n  forward_to:\n    host: upstream:8080\n  execute:\n    - authenticator: basic\n    - authenticator: generic\n    - authenticator: anon\n    - authorizer: cel_true\n    - finalizer: header\n")
+	rs, err := world.ParseRuleSet("sim", robustRequestRule)
 	if err != nil {
 		r.Fail("infra", "ruleset-parse", "%v", err)
 		return
@@ -358,6 +389,7 @@ func robustRequests(r *simcore.Run, w *worlds) {
 		return
 	}
 	defer target.Processor.OnDeleted(rs)
+	defer func() { w.reqMethod, w.reqBody = "", nil }()
 	paths := []string{"/svc/1", "/svc/%2F", "/svc/%zz", "/svc/a%00b", "/svc/" + strings.Repeat("a", 9000), "/svc/1/../../x", "/svc/%e4%f6", "/svc//", "/svc/1/%2f%2F", "/", "/svc/\xff\xfe"}
 	for q := 0; q < 1+s.Draw(4, "n-requests") && !r.Failed(); q++ {
 		path := simcore.Pick(s, paths, "path")
@@ -367,14 +399,27 @@ func robustRequests(r *simcore.Run, w *worlds) {
 			v := simcore.Pick(s, []string{"", "Basic", "Basic !!!", "Basic " + strings.Repeat("QQ", 3000), "Bearer", "sess", "sess=", "=;=;", "a=b; sess=\xff", "application/json; charset=\x00", "for=\"[::1\"", "::::", "%%%", "text/*;q=abc", strings.Repeat(",", 500), "\xf0\x28\x8c\x28"}, "header-value")
 			hdr[k] = v
 		}
+		path += simcore.Pick(s, []string{"", "", "?a=1&a=2", "?a=%zz", "?;;&&==", "?%00=%ff", "?" + strings.Repeat("k=v&", 2000), "?a[]=1&a[b]=2"}, "query")
+		w.reqMethod = simcore.Pick(s, []string{"", "POST", "PURGE", "get", "PATCH"}, "method")
+		w.reqBody = nil
+		if s.Draw(2, "with-body") == 1 {
+			w.reqBody = []byte(simcore.Pick(s, []string{"", "{", `{"a":`, "[1,2", `{"a":{"b":[1,{"c":null}]}}`, "null", "123", `"str"`, strings.Repeat("[", 20000), strings.Repeat(`{"a":`, 12000),
+				"a=%zz&b", "%", "a=1&a=2&b[]=3", "a: &x [1, 2]\nb: *x\nc: *y\n", "a: [\n", "\x00\xff\xfe", strings.Repeat("x", 1<<20), "- - - - - - - - - -", "? !!binary abc\n: x", "1e999999"}, "body"))
+			if _, ok := hdr["Content-Type"]; !ok || s.Draw(2, "typed") == 1 {
+				hdr["Content-Type"] = simcore.Pick(s, []string{"application/json", "application/x-www-form-urlencoded", "application/yaml", "text/plain", "application/json; charset=utf-16", "application/", ";;;", "multipart/form-data; boundary=x"}, "content-type")
+			}
+		}
 		if _, err := url.ParseRequestURI("http://svc.local" + path); err != nil && entry != "envoy" {
 			r.Count("request-rejected-by-net-http", 1)
 			continue // net/http would answer 400 before heimdall sees the request
 		}
 		var panicked any
 		var ans answer
-		guarded(r, "request "+fmt.Sprintf("%q", path), func() { ans, panicked = w.send(entry, path, hdr) })
-		r.Logf("req%d %s %q headers=%d -> positive=%v status=%s", q, entry, trunc(path), len(hdr), ans.positive, trunc(ans.status))
+		guarded(r, "request "+fmt.Sprintf("%q", trunc(path)), func() { ans, panicked = w.send(entry, path, hdr) })
+		r.Logf("req%d %s %s %q headers=%d body=%d %q -> positive=%v status=%s", q, entry, w.reqMethod, trunc(path), len(hdr), len(w.reqBody), hdr["Content-Type"], ans.positive, trunc(ans.status))
+		if ans.positive {
+			r.Count("odd-request-accepted", 1)
+		}
 		if panicked != nil {
 			r.Fail("panic-escaped-entry-point", entry, "a panic escaped the %s entry point for path %q: %v", entry, trunc(path), panicked)
 		}
